@@ -10,8 +10,8 @@ package fzf
 import (
 	"fmt"
 	"os"
-	"runtime"
 	"regexp"
+	"runtime"
 	"sort"
 	"strconv"
 	"strings"
@@ -114,6 +114,8 @@ type sysPlan struct {
 	// Stages: the producer on stdin writes this many records, then pauses until the next "feed" event
 	// (one entry per pause; what is left after the last pause comes with the last feed)
 	Stages []int `json:"stages,omitempty"`
+	// StdoutClosed: nobody reads fzf's standard output any more (`fzf | true`)
+	StdoutClosed bool `json:"stdout_closed,omitempty"`
 }
 
 // ---------------------------------------------------------------------------
@@ -168,10 +170,13 @@ type sysRun struct {
 
 	tolerateBadOpts bool
 	sigKilled       bool
-	stageLines      []int // records written after stage k
-	minWindowSteps  int   // fewest scheduler steps in any 1 s window of the last settle attempt
-	procsAtSettle   int   // size of the process table when that attempt began
-	sigQuiet        bool  // SIGINT/SIGTERM was delivered to fzf's handler while no child process was around
+	pipeDied        bool
+	pipeLeft        []string // child processes alive and never signalled at the first write to a closed stdout
+	sigLeft         []string // child processes alive and never signalled when a signal without handler ended fzf
+	stageLines      []int    // records written after stage k
+	minWindowSteps  int      // fewest scheduler steps in any 1 s window of the last settle attempt
+	procsAtSettle   int      // size of the process table when that attempt began
+	sigQuiet        bool     // SIGINT/SIGTERM was delivered to fzf's handler while no child process was around
 	sigAt           time.Duration
 }
 
@@ -481,6 +486,21 @@ func (r *sysRun) start() bool {
 		panic("zsim: INFRA option parsing failed: " + err.Error() + " " + fmt.Sprint(args))
 	}
 	r.opts = opts
+	if plan.StdoutClosed && opts.Printer != nil {
+		// the reader of fzf's standard output has gone away: the first write raises SIGPIPE, which ends the
+		// process on the spot - whatever fzf has started and not stopped by then stays behind
+		orig := opts.Printer
+		opts.Printer = func(str string) {
+			if !r.pipeDied {
+				r.pipeDied = true
+				for _, p := range r.os.AliveUnkilled() {
+					r.pipeLeft = append(r.pipeLeft, fmt.Sprintf("%d (%q)", p.Pid, p.Command))
+				}
+				c.count("fault.stdout_closed_sigpipe", 1)
+			}
+			orig(str)
+		}
+	}
 	tmp, err := os.CreateTemp("", "verif-stdout-")
 	if err != nil {
 		panic("zsim: INFRA " + err.Error())
@@ -563,7 +583,17 @@ func (r *sysRun) user() {
 			if ev.Sig == "INT" {
 				s = os.Interrupt
 			}
+			if ev.Sig == "HUP" {
+				s = syscall.SIGHUP // the controlling terminal has gone away (window closed, connection lost)
+			}
 			delivered := r.os.Signal(s)
+			if !delivered && ev.Sig == "HUP" && r.t != nil && r.tty.Raw {
+				// no handler: the process dies on the spot, once the interface is up and running - what it has
+				// started stays behind
+				for _, p := range r.os.AliveUnkilled() {
+					r.sigLeft = append(r.sigLeft, fmt.Sprintf("%d (%q)", p.Pid, p.Command))
+				}
+			}
 			r.c.count("fault.signal_"+ev.Sig, 1)
 			r.sim.Logf("signal %s", ev.Sig)
 			if !delivered {
